@@ -359,7 +359,7 @@ def parts(tier):
         for p in D.point_sets(G, 2):
             yield ("P", D.labelled_points(p, "xy"))
 
-    return [
+    ps = [
         InputPart("find", gen_find, _check_find, rule="all label triples over %s x %d queries x {equal, substring, case-insensitive regex}" % (LABS, len(QUERIES)), bounds={}),
         InputPart("getNonEntries-timestamps", gen_non, _check_nonentries,
                   rule="all non-empty interval sets (<=3) on a 5-grid x maxTimestamp {4,6}: non-entries = exactly the unlabelled stretches, positive "
@@ -387,3 +387,17 @@ def parts(tier):
                   rule="every tier of <=2 entries: validate() True when well-formed; every single corruption (entry outside span either side, "
                        "textgrid/tier span mismatch, swapped order, reversed interval) => False", bounds={}),
     ]
+
+    # history independence of the operations of this property (shared battery, see mc/props/live.py)
+    from mc.props import live as _live, tierops as _tierops
+    _hseeds = [("I", "t", 0.0, 4.0, D.labelled(x)) for x in D.interval_sets(D.unit_grid(5), 2)] + \
+              [("P", "t", 0.0, 4.0, D.labelled_points(x)) for x in D.point_sets(D.unit_grid(5), 2)]
+    _hothers = {"I": _tierops.OTHERS_I, "P": _tierops.OTHERS_P}
+    _hvals = (0.0, 0.5, 1.0, 2.0, 3.0, 4.5)
+    ps.append(InputPart(
+        "history-independence", lambda: _live.tier_history_cases(_hseeds, _hothers, _hvals),
+        lambda c: _live.check_tier_history(c, _hothers, _hvals),
+        rule="every (query/copy operation, in-place mutation) sequence on ONE live tier (all tiers of <=2 entries): afterwards the live "
+             "tier and a fresh tier with the same fields agree under ~20 observations as receiver and as argument",
+        bounds={}, chunk=16))
+    return ps
